@@ -27,7 +27,11 @@
 (***************************************************************************)
 EXTENDS Integers, FiniteSets, Sequences, TLC
 
-VARIABLES cfg,         \* [np, plen (sequence, plen[i+1] = length of piece i), maxblk, maxq, cb, nconn, impl]
+VARIABLES cfg,         \* [np, plen (sequence, plen[i+1] = length of piece i), maxblk, maxq, cb, nconn, impl, afsend]
+                       \*   afsend = "all"  : an allowed-fast message goes out for EVERY piece entered in Peer.SentAllowedFast (design)
+                       \*   afsend = "held" : ... only for the pieces that are verified at that moment, the others are entered
+                       \*                     silently (expected-fail variant: a piece obtained later is served to a choked peer
+                       \*                     that was never told so)
           have,        \* set of verified pieces
           \* ---- rain's half, per connection
           open,        \* [Conn -> BOOLEAN]
@@ -115,13 +119,18 @@ CacheAfter(p, off, n) ==
 \* @obligation C03.content       the bytes equal ground truth [begin, begin+length) of the piece
 Cands(c, i, b) == {k \in 1 .. Len(out[c]) : out[c][k].i = i /\ out[c][k].b = b}
 
+\* what a peer was GRANTED = the allowed-fast messages that actually reached it on this connection (bytes on the wire), not
+\* what rain has entered in its own set: a piece that rain obtains AFTER the connection was opened may be served to the
+\* choked peer only if its allowed-fast message was sent
+Granted(c) == laf[c]
+
 PieceViol(c, i, b, n, good) ==
     IF i < 0 \/ i >= cfg.np THEN "C03.invalidServed"
     ELSE IF Cands(c, i, b) = {} THEN "C03.unrequested"
     ELSE IF \A k \in Cands(c, i, b) : out[c][k].l # n THEN "C03.length"
     ELSE IF ~Valid(i, b, n) THEN "C03.invalidServed"
     ELSE IF i \notin have THEN "C03.notHeld"
-    ELSE IF lchoked[c] /\ i \notin laf[c] THEN "C03.choked"
+    ELSE IF lchoked[c] /\ i \notin Granted(c) THEN "C03.choked"
     ELSE IF ~good THEN "C03.content"
     ELSE ""
 
@@ -216,8 +225,9 @@ Open(c, f, S) ==
     /\ af' = [af EXCEPT ![c] = IF f THEN S ELSE {}]
     /\ inq' = [inq EXCEPT ![c] = <<>>]
     /\ served' = [served EXCEPT ![c] = {}]
-    /\ LET pcs == IF f THEN S ELSE {}
-           \* GenerateAndSendAllowedFastMessages: one message per piece, ascending order is as good as any
+    /\ LET pcs == IF f THEN (IF cfg.afsend = "held" THEN S \cap have ELSE S) ELSE {}
+           \* GenerateAndSendAllowedFastMessages: one message per piece (also for pieces that are not verified yet: the set is
+           \* computed once per connection), ascending order is as good as any
            RECURSIVE Afs(_)
            Afs(T) == IF T = {} THEN <<>> ELSE <<M("af", MinOf(T), 0, 0, <<>>)>> \o Afs(T \ {MinOf(T)})
        IN wq' = [wq EXCEPT ![c] = Afs(pcs)]
